@@ -338,6 +338,41 @@ def r4(ctx):
         except interp.Undecided as e:
             ctx.obligation(False)
             ctx.violation("unreadable/%s" % op, ctx.where(sem.CONFORMS), "cannot evaluate conforms for %s: %s" % (op, e))
+    # (f) the wildcard operators hand every pattern to their translator, whatever its shape: a shortcut for a popular shape
+    # (`*.ext` answered from the extension, a leading `*` answered with ends_with) has its own idea of what a wildcard matches -
+    # `*.env` matches the dot-file `.env`, whose extension is empty
+    shapes = ["a*", "*.txt", "*.env", "*", "?", "*.*", "a?c*", "*a", "a%", "%.txt", "_", "%a%"]
+    k = 0
+    for op, tr_ in (("Eq", "convert_glob_to_pattern"), ("Ne", "convert_glob_to_pattern"), ("Like", "convert_like_to_pattern"), ("NotLike", "convert_like_to_pattern")):
+        neg = op in ("Ne", "NotLike")
+        for pat in shapes:
+            if op in ("Eq", "Ne") and not ("*" in pat or "?" in pat):
+                continue
+            for subj in (".env", "a.txt", "xay"):
+                for matched in (False, True):
+                    try:
+                        got, tr = run.run(op, conf.variant(subj), conf.variant(pat), matched=matched, is_glob=True)
+                    except interp.Undecided as e:
+                        ctx.obligation(False)
+                        ctx.violation("unreadable/%s" % op, ctx.where(sem.CONFORMS), "cannot evaluate conforms for %s with the pattern `%s`: %s" % (op, pat, e))
+                        break
+                    k += 1
+                    want_c = ["<%s:%s>" % (tr_, pat)]
+                    ok = tr["compiled"] == want_c and got == (matched != neg) and [s_ for _p, s_ in tr["matched_on"]] == [subj]
+                    ctx.obligation(ok)
+                    if not ok:
+                        ctx.violation("pattern-bypassed/%s" % op, ctx.where(sem.CONFORMS),
+                                      "%s with the pattern `%s` on `%s` must translate the pattern with %s, match the whole column text against it and answer with the regex's "
+                                      "verdict; compiled %s, matched %s, result %s for verdict %s" % (op, pat, subj, tr_, tr["compiled"], tr["matched_on"], got, matched))
+                        break
+                else:
+                    continue
+                break
+            else:
+                continue
+            break
+    ctx.covered("wildcard operators evaluated on 12 pattern shapes x 3 subjects x regex verdicts (the pattern always goes through its translator)", k,
+                distinct_keys=shapes, exhaustive=True)
     # (e) the regex operators hand *every* pattern to the regex engine: a pattern is searched for as plain text (no regex
     # compiled) at most when it holds none of the characters special in regex syntax - a shortcut that forgets one of them
     # (a counted repetition `b{2}`, say) answers with a literal search where the pattern means something else
